@@ -413,6 +413,8 @@ func visitInstr(fr *frame, instr ssa.Instruction) continuation {
 		case symstr:
 			idx := fr.i.w.index(fr.get(instr.Index), len(x.b))
 			fr.set(instr, x.b[idx])
+		case opaqueStr:
+			opaqueAbort(x)
 		default:
 			panic(fmt.Sprintf("unexpected x type in Index: %T", x))
 		}
